@@ -12,6 +12,8 @@ import (
 	"testing"
 	"testing/synctest"
 	"time"
+
+	"verif/engine/racectl"
 )
 
 // Outcome is what a scenario body reports for one execution.
@@ -100,6 +102,8 @@ type Explorer struct {
 
 	st   Stats
 	sigs map[uint64]struct{}
+
+	raceSeen, raceIgnored int
 }
 
 type item struct {
@@ -130,7 +134,7 @@ func (e *Explorer) execute(prefix []int, sigs map[uint64]struct{}) (res *ExecRes
 				}
 			}
 		}()
-		synctest.Test(e.T, func(t *testing.T) {
+		bubble(e.T, func(t *testing.T) {
 			x = newExec(e.Scn.Cfg, prefix, sigs)
 			x.begin()
 			defer x.end()
@@ -148,6 +152,26 @@ func (e *Explorer) execute(prefix []int, sigs map[uint64]struct{}) (res *ExecRes
 			}
 		})
 	}()
+	if racectl.Enabled {
+		// data races the detector reported during this execution (including the teardown of the bubble)
+		for _, r := range racectl.Collect() {
+			if !r.Relevant {
+				e.raceIgnored++
+				if os.Getenv("VERIF_DEBUG_RACES") != "" {
+					fmt.Fprintf(os.Stderr, "ignored race report (%s): %s\n%s\n", r.Why, r.Sig, r.Text)
+				}
+				continue
+			}
+			e.raceSeen++
+			if res.Outcome == nil {
+				res.Outcome = &Outcome{Key: "race"}
+			}
+			if res.Outcome.Violation == "" {
+				res.Outcome.Violation = "data race between " + strings.TrimPrefix(r.Sig, "race:") + "\n" + r.Text
+				res.Outcome.Sig = r.Sig
+			}
+		}
+	}
 	if res.Leak && os.Getenv("VERIF_DEBUG_STACKS") != "" {
 		buf := make([]byte, 1<<20)
 		n := runtime.Stack(buf, true)
@@ -163,6 +187,17 @@ func (e *Explorer) execute(prefix []int, sigs map[uint64]struct{}) (res *ExecRes
 		res.Blocked = x.Blocked
 	}
 	return res
+}
+
+// bubble runs f in a synctest bubble. Under the race detector the testing package fails (and aborts) a test
+// during which a race was reported; the bubble then gets a sub-test of its own to fail, so that the
+// exploration goes on and reports the race as a violation of the schedule that produced it.
+func bubble(t *testing.T, f func(*testing.T)) {
+	if !racectl.Enabled {
+		synctest.Test(t, f)
+		return
+	}
+	t.Run("x", func(t2 *testing.T) { synctest.Test(t2, f) })
 }
 
 func (e *Explorer) mine(level, idx int) (run bool, count bool) {
@@ -392,6 +427,14 @@ func (e *Explorer) Explore() *Stats {
 		}
 	}
 	e.st.WallS = time.Since(t0).Seconds()
+	if racectl.Enabled {
+		if e.st.Extra == nil {
+			e.st.Extra = map[string]any{}
+		}
+		e.st.Extra["race_detector"] = 1
+		e.st.Extra["race_reports_library"] = e.raceSeen
+		e.st.Extra["race_reports_harness_ignored"] = e.raceIgnored
+	}
 	return &e.st
 }
 
